@@ -467,8 +467,12 @@ static void gen_sqrt(Gen& g) {
     // --- powers of two
     for (unsigned k = 1; k <= (T ? 13u : 10u); ++k)
         for (uint64_t x = 0; x < (1ULL << k); ++x) C({"sqrt2k", H((long long)x), H((long long)k)});
-    for (unsigned k = 1; k <= 110; ++k) {
-        if (!T && k > 34 && k % 5 != 0 && k != 57 && k != 58 && k != 59 && k != 99 && k != 101) continue;
+    for (unsigned k = 1; k <= 260; ++k) {
+        // word and double-word boundaries of the exponent (a running power 2^i kept in a machine word wraps exactly there, also when the
+        // recursion halves k down to it: 126..130 -> 63..65, 250..257 -> 125..129 -> 62..65), in every tier
+        const bool boundary = (k >= 62 && k <= 66) || (k >= 125 && k <= 130) || (k >= 250 && k <= 257) || k == 57 || k == 58 || k == 59 || k == 99 || k == 101;
+        if (k > 130 && !boundary) continue;
+        if (!T && k > 34 && k % 5 != 0 && !boundary) continue;
         Integer pk(1); pk <<= (uint64_t)k;
         std::string sk = H((long long)k);
         for (int i = 0; i < (k >= 27 && k <= 34 ? 6 : 3); ++i) {
